@@ -28,6 +28,7 @@ Lemma clh_desync_push_back : fact_desync_push_back = true. Proof. reflexivity. Q
 Lemma clh_sync_drain_push_back : fact_sync_drain_push_back = true. Proof. reflexivity. Qed.
 Lemma clh_sync_bg_push_back : fact_sync_bg_push_back = true. Proof. reflexivity. Qed.
 Lemma clh_dequeue_pops_front : fact_dequeue_pops_front = true. Proof. reflexivity. Qed.
+Lemma clh_drain_requeues_via_requeue : fact_drain_requeues_via_requeue = true. Proof. reflexivity. Qed.
 Lemma clh_drop_is_sync_free : fact_drop_is_sync_free = true. Proof. reflexivity. Qed.
 
 Theorem C02_now : forall nq mx scripts tr s A B q ka kb,
